@@ -139,6 +139,60 @@ def dynamic_pictures_impl(cfg, positions, self_index, dyn):
     return shots
 
 
+def fleet_pictures_impl(positions, fleet):
+    """several cameras in ONE real simulation: `fleet["confs"]` are CameraConfiguration objects, each
+    camera is constructed (on the protocol of its node) from one of them - several cameras may hold the
+    same object, as with a module-level constant for the fleet's camera model, and one node may carry two
+    cameras.  All cameras are constructed first; then the operations run in order: ("face", cam, elevation,
+    rotation) = change_facing on that camera, ("shot", cam) = take_picture.  Returns one entry per shot."""
+    builder = SimulationBuilder(SimulationConfiguration(execution_logging=False))
+    ids = [builder.add_node(_Silent, p) for p in positions]
+    builder.add_handler(MobilityHandler())
+    sim = builder.build()
+    simimpl.quiet_logging()
+    sim.step_simulation()
+    confs = [CameraConfiguration(camera_reach=c["reach"], camera_theta=c["theta"],
+                                 facing_elevation=c["elevation"], facing_rotation=c["rotation"])
+             for c in fleet["confs"]]
+    cams = [CameraHardware(sim.get_node(ids[c["node"]]).protocol_encapsulator.protocol, confs[c["conf"]])
+            for c in fleet["cams"]]
+    shots = []
+    for k, op in enumerate(fleet["ops"]):
+        if op[0] == "face":
+            try:
+                cams[op[1]].change_facing(op[2], op[3])
+            except Exception as e:
+                shots.append({"op": k, "cam": op[1], "picture": None, "crash": "change_facing: " + _exc(e)})
+        else:
+            try:
+                pic, crash = [v3bits(e["position"]) for e in cams[op[1]].take_picture()], None
+            except Exception as e:
+                pic, crash = None, _exc(e)
+            shots.append({"op": k, "cam": op[1], "picture": pic, "crash": crash})
+    return shots
+
+
+def fleet_axes(fleet):
+    """the property's reading of the operations: every camera has ITS OWN axis - the orientation of the
+    configuration it was constructed with until its own change_facing, afterwards the orientation it was
+    last given; reach and cone angle are those it was constructed with.  Yields (op index, cam, cfg)."""
+    cur = [dict(fleet["confs"][c["conf"]]) for c in fleet["cams"]]
+    for k, op in enumerate(fleet["ops"]):
+        if op[0] == "face":
+            cur[op[1]]["elevation"], cur[op[1]]["rotation"] = op[2], op[3]
+        else:
+            yield k, op[1], dict(cur[op[1]])
+
+
+def aim_at(s, o):
+    """(elevation, rotation) in degrees of the direction from s to o"""
+    rel = (o[0] - s[0], o[1] - s[1], o[2] - s[2])
+    d = math.sqrt(rel[0] ** 2 + rel[1] ** 2 + rel[2] ** 2)
+    if not d > 0:
+        return 0.0, 0.0
+    return math.degrees(math.acos(max(-1.0, min(1.0, rel[2] / d)))), math.degrees(math.atan2(rel[1], rel[0]))
+
+
 def angle_oracle(ax, rel):
     """angle between axis and rel by atan2(|a x r|, a . r): well conditioned everywhere"""
     cx = ax[1] * rel[2] - ax[2] * rel[1]
@@ -192,19 +246,28 @@ class C19(Check):
     level_text = ("Theorems: for every scalar type satisfying four order facts (and concretely over the reals) and for "
                   "EVERY value of the computed cosine the clamped argument is in [-1,1], so no judgement errs and "
                   "take_picture returns; over the reals the verdict is exactly the cone predicate, the picture exactly the "
-                  "other nodes in the cone with their positions, and translation changes nothing.  The model is tied to "
-                  "the code by bit-level comparison of pictures at Float.")
+                  "other nodes in the cone with their positions, and translation changes nothing; for several cameras whose "
+                  "configuration objects are held by reference (any scalar type) change_facing changes the axis of the camera "
+                  "it is called on and of no other, the constructor gives a camera the configuration it was passed, so each "
+                  "picture is exactly the other nodes in the cone of the camera that took it.  The model is tied to the code "
+                  "by bit-level comparison of pictures at Float (single cameras and fleets).")
     rule = ("real CameraHardware on a protocol of a real simulation with a real MobilityHandler; orientations over the full "
             "sphere; 2-14 nodes per scene: at k*axis and -k*axis (computed in floats, camera at the origin and elsewhere), "
             "at the camera's own position, on the integer-lattice reach boundary, random in 1.5*reach; dyadic scenes "
-            "re-run translated; non-trivial = a scene containing an on-axis node whose unclamped cosine, computed as the "
-            "source does, exceeds 1 in magnitude")
+            "re-run translated; a share of the scenes as a moving scene (pictures before and after the mobility update of one "
+            "instant) and a share with a fleet of 2-4 cameras in one simulation, built from 1-3 CameraConfiguration objects "
+            "(mostly one object shared by all cameras), re-aimed one at a time with change_facing (at another node or "
+            "anywhere) with pictures by the other cameras in between, every picture judged against the cone of the camera "
+            "that took it (the orientation it was constructed with or last given); non-trivial = a scene containing an "
+            "on-axis node whose unclamped cosine, computed as the source does, exceeds 1 in magnitude")
     assumptions = ["a MobilityHandler is configured (without one take_picture returns [] by documented design)",
                    "the tolerance 1e-6 is a literal in camera.py; the model receives the same value",
                    "reach, theta, elevation, rotation and all coordinates are finite floats",
                    "the oracle judges a node only if its angle differs from theta+tol by > 1e-9 (+ acos conditioning) and its "
-                   "distance from reach by > 1e-9 relative; integer-lattice scenes are judged exactly at the reach"]
-    modelled = ["gradysim/simulator/extension/camera.py (_camera_direction_unit_vector, take_picture)"]
+                   "distance from reach by > 1e-9 relative; integer-lattice scenes are judged exactly at the reach",
+                   "in a fleet all cameras are constructed before the first change_facing, so the orientation a camera is "
+                   "constructed with is unambiguous; its axis is then its own: the constructed one until ITS change_facing"]
+    modelled = ["gradysim/simulator/extension/camera.py (_camera_direction_unit_vector, take_picture, change_facing)"]
 
     # -------------------------------------------------------------------------------- generation
     def generate(self, seed, tier):
@@ -305,6 +368,47 @@ class C19(Check):
                            "dt": fbits(r.choice([0.5, 1.0])), "ticks": r.choice([3, 5, 8])}
         return case
 
+    def _fleet(self, r, case):
+        """a share of the scenes also run with a fleet of cameras (see fleet_pictures_impl): 2-4 cameras on
+        the scene's nodes, built from 1-3 configuration objects (mostly ONE object shared by all, the way a
+        protocol class holds its camera model in a constant), re-aimed one at a time with change_facing -
+        at another node or anywhere - with pictures by the others in between"""
+        n = len(case["positions"])
+        if n < 3 or r.random() > 0.25:
+            return case
+        base = self.cfg_of(case)
+        positions = [bitsv3(p) for p in case["positions"]]
+        ncam = r.randint(2, 4)
+        nodes = [case["selfIndex"]] + [r.randrange(n) for _ in range(ncam - 1)]
+        nconf = 1 if r.random() < 0.6 else r.randint(2, 3)
+        confs = [dict(base)]
+        for _ in range(nconf - 1):
+            c = dict(base)
+            if r.random() < 0.6:
+                c["elevation"], c["rotation"] = self._orientation(r)
+            if r.random() < 0.3:
+                c["theta"] = r.choice([0.0, 30.0, 90.0, r.uniform(0, 180)])
+            if r.random() < 0.3:
+                c["reach"] = base["reach"] * r.choice([0.5, 2.0])
+            confs.append(c)
+        cams = [{"node": nd, "conf": 0 if nconf == 1 else r.randrange(nconf)} for nd in nodes]
+        ops = []
+        if r.random() < 0.4:
+            ops += [["shot", c] for c in range(ncam)]
+        for _ in range(r.randint(1, 4)):
+            a = r.randrange(ncam)
+            if r.random() < 0.6:
+                o = positions[r.randrange(n)]
+                elev, rot = aim_at(positions[nodes[a]], o)
+            else:
+                elev, rot = self._orientation(r)
+            ops.append(["face", a, fbits(elev), fbits(rot)])
+            shooters = list(range(ncam))
+            r.shuffle(shooters)
+            ops += [["shot", c] for c in shooters[:r.randint(2, ncam)]]
+        case["fleet"] = {"confs": [{k: fbits(v) for k, v in c.items()} for c in confs], "cams": cams, "ops": ops}
+        return case
+
     def _finish(self, r, label, cls, reach, theta, elev, rot, pos, self_index, shift_exact=False, shift_clear=False):
         # registration order: the camera's node is not always the first one
         order = list(range(len(pos)))
@@ -318,12 +422,20 @@ class C19(Check):
             case["shift"] = {"exact": True, "v": v3bits(tuple(dy(r, -4096, 4096) for _ in range(3)))}
         elif shift_clear and r.random() < 0.5:
             case["shift"] = {"exact": False, "v": v3bits(tuple(r.uniform(-1000, 1000) for _ in range(3)))}
-        return self._dynamic(r, case)
+        return self._fleet(r, self._dynamic(r, case))
 
     # -------------------------------------------------------------------------------- execution
     @staticmethod
     def cfg_of(case):
         return {k: bitsf(v) for k, v in case["cfg"].items()}
+
+    @staticmethod
+    def fleet_of(case):
+        f = case.get("fleet")
+        if not f:
+            return None
+        return {"confs": [{k: bitsf(v) for k, v in c.items()} for c in f["confs"]], "cams": f["cams"],
+                "ops": [[op[0], op[1]] + [bitsf(v) for v in op[2:]] for op in f["ops"]]}
 
     def run_impl(self, case):
         cfg = self.cfg_of(case)
@@ -343,14 +455,23 @@ class C19(Check):
                                                         "speed": bitsf(d["speed"]), "dt": bitsf(d["dt"]), "ticks": d["ticks"]})
             except Exception as e:
                 out["dynamic"] = [{"where": "run", "t": 0, "positions": case["positions"], "picture": None, "crash": _exc(e)}]
+        fleet = self.fleet_of(case)
+        if fleet:
+            try:
+                out["fleet"] = fleet_pictures_impl(positions, fleet)
+            except Exception as e:
+                out["fleet"] = [{"op": -1, "cam": 0, "picture": None, "crash": "building the fleet: " + _exc(e)}]
         return out
 
     def model_input(self, case, impl):
         cfg = dict(case["cfg"])
         cfg["tol"] = fbits(CAMERA_TOL)
-        return {"kind": "camera", "cfg": cfg, "selfId": case["selfIndex"],
+        line = {"kind": "camera", "cfg": cfg, "selfId": case["selfIndex"],
                 "self": case["positions"][case["selfIndex"]],
                 "nodes": [[i, p] for i, p in enumerate(case["positions"])]}
+        if case.get("fleet"):
+            line["fleet"] = case["fleet"]        # Camera.Fleet: constructors, change_facing, pictures
+        return line
 
     def compare(self, case, impl, model):
         mp = model["picture"]
@@ -364,7 +485,21 @@ class C19(Check):
         if got != want:
             return [f"picture differs: implementation {[bitsv3(p) for p in got][:6]} ({len(got)} entries), model "
                     f"{[(p[0], bitsv3(p[1])) for p in mp][:6]} ({len(want)} entries); verdicts {model['verdicts'][:8]}"]
-        return []
+        diffs = []
+        if case.get("fleet") and impl.get("fleet") is not None:
+            mf = model.get("fleet") or []
+            shots = [sh for sh in impl["fleet"] if not str(sh["crash"] or "").startswith(("change_facing", "building"))]
+            if len(shots) != len(mf):
+                diffs.append(f"fleet: implementation took {len(shots)} pictures, model {len(mf)}")
+            for sh, m in zip(shots, mf):
+                got = None if sh["picture"] is None else [list(p) for p in sh["picture"]]
+                want = None if m is None else [list(p[1]) for p in m]
+                if got != want:
+                    diffs.append(f"fleet operation {sh['op']} (picture by camera {sh['cam']}): implementation "
+                                 f"{None if got is None else [bitsv3(p) for p in got][:6]}"
+                                 f"{' raised ' + sh['crash'] if sh['crash'] else ''}, model "
+                                 f"{None if m is None else [(p[0], bitsv3(p[1])) for p in m][:6]}")
+        return diffs[:5]
 
     # -------------------------------------------------------------------------------- predicate
     def _judge_scene(self, cfg, positions, self_index, pic, fails, tag="", wide=False):
@@ -416,6 +551,24 @@ class C19(Check):
             else:
                 self._judge_scene(cfg, [bitsv3(p) for p in shot["positions"]], case["selfIndex"], shot["picture"],
                                   fails, tag=tag, wide=True)
+        fleet = self.fleet_of(case)
+        if fleet and impl.get("fleet") is not None:
+            want = {k: (cam, c) for k, cam, c in fleet_axes(fleet)}
+            got = {shot["op"]: shot for shot in impl["fleet"]}
+            for shot in impl["fleet"]:
+                if shot["crash"] is not None:
+                    fails.append(("C19:raises", f"[fleet, operation {shot['op']} on camera {shot['cam']}] raised "
+                                  f"{shot['crash']}"))
+            for k, (cam, c) in want.items():
+                shot = got.get(k)
+                if shot is None or shot["crash"] is not None:
+                    continue
+                node = fleet["cams"][cam]["node"]
+                shared = sum(1 for o in fleet["cams"] if o["conf"] == fleet["cams"][cam]["conf"])
+                tag = (f"[fleet of {len(fleet['cams'])} cameras, operation {k}: picture by camera {cam} on node {node} "
+                       f"(its configuration object is held by {shared} camera(s)); operations so far "
+                       f"{fleet['ops'][:k + 1]}] ")
+                self._judge_scene(c, positions, node, shot["picture"], fails, tag=tag)
         sh = impl.get("shifted")
         if sh:
             t = bitsv3(case["shift"]["v"])
@@ -484,26 +637,65 @@ class C19(Check):
         if case.get("shift"):
             acc["translated_" + ("exact" if case["shift"]["exact"] else "clear")] = \
                 acc.get("translated_" + ("exact" if case["shift"]["exact"] else "clear"), 0) + 1
+        if case.get("dynamic"):
+            acc["moving_scenes"] = acc.get("moving_scenes", 0) + 1
+        fleet = self.fleet_of(case)
+        if fleet:
+            acc["fleets"] = acc.get("fleets", 0) + 1
+            faced_by = {}
+            for op in fleet["ops"]:
+                conf = fleet["cams"][op[1]]["conf"]
+                if op[0] == "face":
+                    acc["fleet_change_facing"] = acc.get("fleet_change_facing", 0) + 1
+                    faced_by[conf] = op[1]
+                else:
+                    acc["fleet_pictures"] = acc.get("fleet_pictures", 0) + 1
+                    if conf in faced_by and faced_by[conf] != op[1]:
+                        # the configuration object this camera holds was last written through ANOTHER camera
+                        acc["fleet_pictures_after_foreign_change_facing"] = \
+                            acc.get("fleet_pictures_after_foreign_change_facing", 0) + 1
 
     def shrink(self, case, still_fails):
         best = case
+        for part in ("fleet", "dynamic", "shift"):          # legs the failure does not need
+            if best.get(part):
+                cand = dict(best)
+                cand[part] = None
+                if still_fails(cand):
+                    best = cand
+        # fleet operations from the end, then from the front (an operation is kept if the failure needs it)
+        changed = bool(best.get("fleet"))
+        while changed:
+            changed = False
+            ops = best["fleet"]["ops"]
+            for i in list(range(len(ops) - 1, -1, -1)):
+                cand = dict(best)
+                cand["fleet"] = dict(best["fleet"], ops=ops[:i] + ops[i + 1:])
+                if cand["fleet"]["ops"] and still_fails(cand):
+                    best, changed = cand, True
+                    break
         changed = True
         while changed:
             changed = False
+            keep = {best["selfIndex"]}
+            if best.get("fleet"):
+                keep |= {c["node"] for c in best["fleet"]["cams"]}
+            if best.get("dynamic"):
+                keep.add(best["dynamic"]["mover"])
             for i in range(len(best["positions"]) - 1, -1, -1):
-                if i == best["selfIndex"] or len(best["positions"]) <= 2:
+                if i in keep or len(best["positions"]) <= 2:
                     continue
+                down = lambda j: j - (1 if i < j else 0)
                 cand = dict(best)
                 cand["positions"] = best["positions"][:i] + best["positions"][i + 1:]
-                cand["selfIndex"] = best["selfIndex"] - (1 if i < best["selfIndex"] else 0)
+                cand["selfIndex"] = down(best["selfIndex"])
+                if best.get("fleet"):
+                    cand["fleet"] = dict(best["fleet"], cams=[dict(c, node=down(c["node"])) for c in best["fleet"]["cams"]])
+                if best.get("dynamic"):
+                    cand["dynamic"] = dict(best["dynamic"], mover=down(best["dynamic"]["mover"]))
                 if still_fails(cand):
                     best, changed = cand, True
                     break
-        if best.get("shift"):
-            cand = dict(best)
-            cand["shift"] = None
-            if still_fails(cand):
-                best = cand
         return best
 
 
@@ -553,17 +745,22 @@ class C20(Check):
     level_text = ("Theorems over the reals: north-south leg = R*|dphi| exactly, east-west leg = 2R*asin(cos(phi0)*|sin(dlambda/2)|) "
                   "within [R cos(phi0)|dl|(1-dl^2/24), R cos(phi0)|dl|], x/y/z and their signs in all four quadrants (signed closed "
                   "form), exact distances along the reference meridian, the general bound (|lat0| <= 60 deg, both targets within 5 km: "
-                  "converted distance within 0.3% < 0.5% of great-circle distance + altitude), geographic goto = Cartesian goto to "
+                  "converted distance within 0.3% < 0.5% of great-circle distance + altitude), a target at the reference's latitude "
+                  "and longitude maps to (0, 0, altitude difference), geographic goto = Cartesian goto to "
                   "the converted point (every scalar type).  The 1% band for 60 < |lat0| <= 80 deg is supported by the sampled "
                   "comparison of this check only.")
     rule = ("references over latitudes +-80 deg and all longitudes, 2-8 targets within 5 km in all four quadrants with unequal "
-            "offsets, mirror pairs straddling the reference meridian / parallel, targets on the axes; bit-level agreement of "
+            "offsets, mirror pairs straddling the reference meridian / parallel, targets on the axes, targets with zero "
+            "horizontal offset (the reference itself, points straight above / below it) and targets sharing exactly one "
+            "coordinate with the reference; in a share of the cases the same targets are converted and flown under 1-3 further "
+            "references in the same process (other launch sites, the first reference again); bit-level agreement of "
             "geo_to_cartesian with the model; pairwise converted distance vs an independent 3-D-chord great-circle distance "
             "(0.5% for |lat0|<=60, 1% for <=80); closed-form legs; real simulations comparing GotoGeoCoords with GotoCoords; "
             "non-trivial = a pair of targets in different quadrants with |dlat| != |dlon|")
     assumptions = ["reference latitude within +-80 deg, targets within 5 km of the reference (the small-offset regime of the property)",
                    "R = 6371000 m, the literal of position.py, is used by model and oracle alike",
-                   "pairs closer than 1 m are not judged by the relative band (float noise), only by the closed form"]
+                   "pairs closer than 1 m (great circle + altitude) are not judged by the relative band (float noise), only "
+                   "by the closed form"]
     modelled = ["gradysim/protocol/position.py (_haversine_distance, geo_to_cartesian)",
                 "gradysim/simulator/handler/mobility.py (handle_command: GOTO_GEO_COORDS)"]
 
@@ -611,6 +808,16 @@ class C20(Check):
                 elif mode < 0.24:
                     e_m = 0.0
                 targets.append(mk(n_m, e_m, r.choice([alt0, alt0 + r.uniform(-200, 200)])))
+        home = r.random()
+        if home < 0.3:
+            # zero horizontal offset: a point straight above / below the reference (take-off, "hover over
+            # home", return to launch) or the reference itself
+            targets.insert(r.randrange(len(targets) + 1),
+                           (lat0, lon0, r.choice([alt0 + float(r.randint(1, 120)), alt0 + r.uniform(-100, 300), alt0])))
+        elif home < 0.4:
+            # a waypoint sharing exactly one coordinate with the reference, at another altitude
+            t0 = r.choice(targets)
+            targets.append(r.choice([(lat0, t0[1], t0[2] + 25.0), (t0[0], lon0, t0[2] - 15.0)]))
         if i % 8 == 0 and r.random() < 0.6:
             # waypoints stacked over one another: same latitude/longitude, different altitudes (descend
             # over a point, two nodes holding at different flight levels)
@@ -620,11 +827,30 @@ class C20(Check):
         if i % 8 == 0:
             case["goto"] = {"speed": fbits(float(r.choice([512, 1024, 2048]))), "dt": fbits(r.choice([0.5, 1.0, 0.25])),
                             "duration": fbits(float(r.choice([1, 2, 4, 16])))}
+        if i % 4 == 0 and r.random() < 0.75:
+            # the SAME absolute targets seen from other reference points in the same process (one mission flown
+            # from several launch sites, a sweep over sites): 1-2 further references a few km away - free,
+            # on the meridian / parallel of the first one, or at a target's latitude and longitude (launch from the
+            # first waypoint) - and sometimes the first reference once more at the end
+            sites = []
+            for _ in range(r.randint(1, 2)):
+                m2 = r.random()
+                if m2 < 0.55:
+                    la, lo, _a = mk(r.uniform(-2500, 2500), r.uniform(-2500, 2500), 0.0)
+                elif m2 < 0.7:
+                    la, lo, _a = mk(0.0, r.choice([-1, 1]) * r.uniform(50, 2500), 0.0)
+                elif m2 < 0.85:
+                    la, lo, _a = mk(r.choice([-1, 1]) * r.uniform(50, 2500), 0.0, 0.0)
+                else:
+                    la, lo, _a = r.choice(targets)
+                sites.append((la, lo, r.choice([alt0, 0.0, alt0 + r.uniform(-50, 50)])))
+            if r.random() < 0.3:
+                sites.append(ref)
+            case["sites"] = [v3bits(x) for x in sites]
         return case
 
-    def run_impl(self, case):
-        ref = bitsv3(case["ref"])
-        targets = [bitsv3(t) for t in case["targets"]]
+    @staticmethod
+    def _run_site(ref, targets, g):
         out = {"points": [], "crash": None, "goto": None}
         try:
             for t in targets:
@@ -632,7 +858,6 @@ class C20(Check):
         except Exception as e:
             out["crash"] = _exc(e)
             return out
-        g = case.get("goto")
         if g:
             try:
                 geo, cart = geo_goto_impl(ref, targets, bitsf(g["speed"]), bitsf(g["dt"]), bitsf(g["duration"]))
@@ -641,8 +866,16 @@ class C20(Check):
                 out["goto"] = {"crash": _exc(e)}
         return out
 
+    def run_impl(self, case):
+        targets = [bitsv3(t) for t in case["targets"]]
+        out = self._run_site(bitsv3(case["ref"]), targets, case.get("goto"))
+        if out["crash"] is None and case.get("sites"):
+            # the same targets under further references, one after the other in this process
+            out["sites"] = [self._run_site(bitsv3(x), targets, case.get("goto")) for x in case["sites"]]
+        return out
+
     def model_input(self, case, impl):
-        return {"kind": "geo", "ref": case["ref"], "targets": case["targets"]}
+        return {"kind": "geo", "ref": case["ref"], "targets": case["targets"], "sites": case.get("sites") or []}
 
     def compare(self, case, impl, model):
         if impl["crash"]:
@@ -652,6 +885,14 @@ class C20(Check):
             if list(a) != list(b):
                 diffs.append(f"target {i} {bitsv3(case['targets'][i])} (ref {bitsv3(case['ref'])}): implementation "
                              f"{bitsv3(a)}, model {bitsv3(b)}")
+        for k, (x, res, mpts) in enumerate(zip(case.get("sites") or [], impl.get("sites") or [], model.get("sites") or [])):
+            if res["crash"]:
+                diffs.append(f"reference no. {k + 2} {bitsv3(x)}: implementation raised {res['crash']}")
+                continue
+            for i, (a, b) in enumerate(zip(res["points"], mpts)):
+                if list(a) != list(b):
+                    diffs.append(f"target {i} {bitsv3(case['targets'][i])} (reference no. {k + 2} {bitsv3(x)}): "
+                                 f"implementation {bitsv3(a)}, model {bitsv3(b)}")
         return diffs
 
     @staticmethod
@@ -660,10 +901,17 @@ class C20(Check):
 
     def oracle(self, case, impl):
         fails = []
-        ref = bitsv3(case["ref"])
         targets = [bitsv3(t) for t in case["targets"]]
+        self._judge_site(bitsv3(case["ref"]), targets, impl, case.get("goto"), fails, "")
+        for k, (x, res) in enumerate(zip(case.get("sites") or [], impl.get("sites") or [])):
+            self._judge_site(bitsv3(x), targets, res, case.get("goto"), fails,
+                             f"[same targets, reference no. {k + 2} of this case] ")
+        return fails
+
+    def _judge_site(self, ref, targets, impl, gg, fails, tag):
         if impl["crash"]:
-            return [("C20:raises", f"geo_to_cartesian raised {impl['crash']}")]
+            fails.append(("C20:raises", f"{tag}geo_to_cartesian raised {impl['crash']}"))
+            return
         pts = [bitsv3(p) for p in impl["points"]]
         band = 0.005 if abs(ref[0]) <= 60 else 0.01
         near = [great_circle(ref, t) <= 5000.0 for t in targets]
@@ -679,14 +927,14 @@ class C20(Check):
                 gc = great_circle(allt[i], allt[j])
                 true = math.hypot(gc, allt[i][2] - allt[j][2])
                 conv = math.dist(allp[i], allp[j])
-                if gc < 1.0:
+                if true < 1.0:
                     continue
                 rel = abs(conv - true) / true
                 if rel > band and (worst is None or rel > worst[0]):
                     worst = (rel, i, j, conv, true)
         if worst:
             rel, i, j, conv, true = worst
-            fails.append(("C20:pairwise-distance", f"ref {ref}: points {allt[i]} and {allt[j]} are {true:.3f} m apart "
+            fails.append(("C20:pairwise-distance", f"{tag}ref {ref}: points {allt[i]} and {allt[j]} are {true:.3f} m apart "
                           f"(great circle + altitude) but their converted images {allp[i]} and {allp[j]} are {conv:.3f} m "
                           f"apart (relative error {rel:.3%}, band {band:.1%})"))
         # closed form of the legs and the signs (C20_axes_closed_form)
@@ -700,27 +948,25 @@ class C20(Check):
                 continue
             tol = lambda w: 1e-6 + 1e-7 * abs(w)
             if abs(p[0] - wx) > tol(wx) or abs(p[1] - wy) > tol(wy) or p[2] != wz:
-                fails.append(("C20:axes", f"ref {ref}, target {t}: converted to {p}; east-west leg signed by longitude, "
+                fails.append(("C20:axes", f"{tag}ref {ref}, target {t}: converted to {p}; east-west leg signed by longitude, "
                               f"north-south leg signed by latitude, altitude difference are ({wx:.6f}, {wy:.6f}, {wz})"))
             if (t[1] > ref[1] and not p[0] > 0) or (t[1] < ref[1] and not p[0] < 0) or \
                (t[0] > ref[0] and not p[1] > 0) or (t[0] < ref[0] and not p[1] < 0):
-                fails.append(("C20:signs", f"ref {ref}, target {t} converted to {p}: signs do not follow the quadrant"))
+                fails.append(("C20:signs", f"{tag}ref {ref}, target {t} converted to {p}: signs do not follow the quadrant"))
         g = impl.get("goto")
         if g:
             if "crash" in g:
-                fails.append(("C20:goto-raises", f"simulation with geographic goto raised {g['crash']}"))
+                fails.append(("C20:goto-raises", f"{tag}simulation with geographic goto raised {g['crash']}"))
             else:
                 for i, (a, b) in enumerate(zip(g["geo"], g["cart"])):
                     if list(a) != list(b):
-                        fails.append(("C20:goto-geo", f"target {targets[i]}: node sent by GotoGeoCoords ended at {bitsv3(a)}, "
-                                      f"node sent by GotoCoords to the converted point ended at {bitsv3(b)}"))
+                        fails.append(("C20:goto-geo", f"{tag}ref {ref}, target {targets[i]}: node sent by GotoGeoCoords ended "
+                                      f"at {bitsv3(a)}, node sent by GotoCoords to the converted point ended at {bitsv3(b)}"))
                     d = math.dist((0, 0, 0), pts[i])
-                    gg = case["goto"]
                     steps = math.floor(bitsf(gg["duration"]) / bitsf(gg["dt"]))
                     if bitsf(gg["speed"]) * bitsf(gg["dt"]) * (steps - 1) >= d and list(a) != list(impl["points"][i]):
-                        fails.append(("C20:goto-geo", f"target {targets[i]}: after enough time the node is at {bitsv3(a)}, "
-                                      f"not at the converted point {pts[i]}"))
-        return fails
+                        fails.append(("C20:goto-geo", f"{tag}ref {ref}, target {targets[i]}: after enough time the node is at "
+                                      f"{bitsv3(a)}, not at the converted point {pts[i]}"))
 
     def nontrivial(self, case, impl):
         ref = bitsv3(case["ref"])
@@ -750,7 +996,17 @@ class C20(Check):
             name = "quadrant_" + ("N" if q[0] else "S") + ("E" if q[1] else "W")
             acc[name] = acc.get(name, 0) + 1
         if case.get("goto"):
-            acc["goto_simulations"] = acc.get("goto_simulations", 0) + 1
+            acc["goto_simulations"] = acc.get("goto_simulations", 0) + 1 + len(impl.get("sites") or [])
+        if impl.get("sites"):
+            acc["cases_with_further_references"] = acc.get("cases_with_further_references", 0) + 1
+            acc["further_references"] = acc.get("further_references", 0) + len(impl["sites"])
+        for t in case["targets"]:
+            tt = bitsv3(t)
+            if tt[0] == ref[0] and tt[1] == ref[1]:
+                k = "targets_at_reference_latlon_" + ("same_altitude" if tt[2] == ref[2] else "other_altitude")
+                acc[k] = acc.get(k, 0) + 1
+            elif tt[0] == ref[0] or tt[1] == ref[1]:
+                acc["targets_on_reference_meridian_or_parallel"] = acc.get("targets_on_reference_meridian_or_parallel", 0) + 1
         # worst relative error seen (sampled support for C20_small_offsets)
         if not impl["crash"] and abs(ref[0]) <= 80:
             ts = [ref] + [bitsv3(t) for t in case["targets"]]
@@ -758,9 +1014,9 @@ class C20(Check):
             for i in range(len(ts)):
                 for j in range(i + 1, len(ts)):
                     gc = great_circle(ts[i], ts[j])
-                    if gc < 1.0 or great_circle(ref, ts[i]) > 5000 or great_circle(ref, ts[j]) > 5000:
-                        continue
                     true = math.hypot(gc, ts[i][2] - ts[j][2])
+                    if true < 1.0 or great_circle(ref, ts[i]) > 5000 or great_circle(ref, ts[j]) > 5000:
+                        continue
                     rel = abs(math.dist(ps[i], ps[j]) - true) / true
                     k = "worst_rel_error_" + b
                     acc[k] = max(acc.get(k, 0.0), rel)
